@@ -85,6 +85,13 @@ theorem observable_result_refines {α : Type} [RealOps α] (D : Dims) (hD : DPos
     runObserveG .ref D T A P = runObserveG .impl D T A P :=
   runObserveG_refines D hD T A hA P
 
+/-- The same for `EclipseState(deck)` as a whole: the ACTNUM-only pre-pass (scratch FieldProps
+with all cells active over the ACTNUM keyword, EQUALS and BOX/ENDBOX of the GRID section) that
+gives the grid its ACTNUM, then the constructor, then the observation. -/
+theorem eclipse_state_refines {α : Type} [RealOps α] (D : Dims) (hD : DPos D) (T : Tables α) (P : Prog α) :
+    runDeck .ref D T P = runDeck .impl D T P :=
+  runDeck_refines D hD T P
+
 /-- `inactive_independence` for one operation (any kernel, any selection): the same operation on
 the same global contents under two ACTNUMs leaves the same content in every cell active in both. -/
 theorem inactive_independence_per_operation {α : Type} [Scalar α] (K : Kernel α) (A A' : List Bool)
